@@ -3,7 +3,7 @@ import IstioModel.C17.Model
 /-!
 C17 - generic theory: a sort is any function that returns an ordered permutation; for a comparator
 that is a strict total order on a key, and inputs whose distinct members have distinct keys, the
-result does not depend on the input order (`sort_canonical`).  Core Lean only.
+result does not depend on the input order (`sort_canonical_aux`).  Core Lean only.
 -/
 namespace IstioModel.C17
 
@@ -22,7 +22,7 @@ structure TotalOnKey {α κ : Type} (cmp : α → α → Ordering) (key : α →
   trans  : ∀ a b c, cmp a b ≠ .gt → cmp b c ≠ .gt → cmp a c ≠ .gt
 
 /-- An ordered permutation is unique as soon as distinct members are comparable. -/
-theorem sorted_perm_unique {α : Type} (lt : α → α → Bool) :
+theorem sorted_perm_unique_aux {α : Type} (lt : α → α → Bool) :
     ∀ (l₁ l₂ : List α), l₁.Perm l₂ →
       l₁.Pairwise (fun a b => lt b a = false) → l₂.Pairwise (fun a b => lt b a = false) →
       (∀ a b, a ∈ l₁ → b ∈ l₁ → a ≠ b → lt a b = true ∨ lt b a = true) → l₁ = l₂
@@ -51,16 +51,16 @@ theorem sorted_perm_unique {α : Type} (lt : α → α → Bool) :
         | inr h => rw [h1] at h; exact Bool.noConfusion h
       subst hab
       have pt : t₁.Perm t₂ := p.cons_inv
-      have ih := sorted_perm_unique lt t₁ t₂ pt (List.pairwise_cons.1 s₁).2 (List.pairwise_cons.1 s₂).2
+      have ih := sorted_perm_unique_aux lt t₁ t₂ pt (List.pairwise_cons.1 s₁).2 (List.pairwise_cons.1 s₂).2
         (fun x y hx hy hne => tot x y (List.mem_cons_of_mem _ hx) (List.mem_cons_of_mem _ hy) hne)
       rw [ih]
 
 /-- **Canonical ordering.** For every sort routine, if distinct members of the input are comparable
     under `lt`, the result is the same for every permutation of the input. -/
-theorem sort_canonical {α : Type} {lt : α → α → Bool} {sort : List α → List α} (hs : IsSort lt sort)
+theorem sort_canonical_aux {α : Type} {lt : α → α → Bool} {sort : List α → List α} (hs : IsSort lt sort)
     {l₁ l₂ : List α} (tot : ∀ a b, a ∈ l₁ → b ∈ l₁ → a ≠ b → lt a b = true ∨ lt b a = true)
     (p : l₁.Perm l₂) : sort l₁ = sort l₂ := by
-  apply sorted_perm_unique lt
+  apply sorted_perm_unique_aux lt
   · exact (hs.perm l₁).trans (p.trans (hs.perm l₂).symm)
   · exact hs.sorted l₁
   · exact hs.sorted l₂
@@ -69,11 +69,11 @@ theorem sort_canonical {α : Type} {lt : α → α → Bool} {sort : List α →
 
 /-- Two different sort routines (say a stable and an unstable one, or two releases of the Go
     runtime) agree as well. -/
-theorem sort_routine_irrelevant {α : Type} {lt : α → α → Bool} {s₁ s₂ : List α → List α}
+theorem sort_routine_irrelevant_aux {α : Type} {lt : α → α → Bool} {s₁ s₂ : List α → List α}
     (h₁ : IsSort lt s₁) (h₂ : IsSort lt s₂) {l₁ l₂ : List α}
     (tot : ∀ a b, a ∈ l₁ → b ∈ l₁ → a ≠ b → lt a b = true ∨ lt b a = true)
     (p : l₁.Perm l₂) : s₁ l₁ = s₂ l₂ := by
-  apply sorted_perm_unique lt
+  apply sorted_perm_unique_aux lt
   · exact (h₁.perm l₁).trans (p.trans (h₂.perm l₂).symm)
   · exact h₁.sorted l₁
   · exact h₂.sorted l₂
@@ -97,10 +97,10 @@ theorem TotalOnKey.comparable {α κ : Type} {cmp : α → α → Ordering} {key
 
 /-- **Canonical ordering, key form.** `cmp` a strict total order on `key`, keys pairwise distinct:
     every sort routine returns the same list for every permutation of the input. -/
-theorem sort_canonical_key {α κ : Type} {cmp : α → α → Ordering} {key : α → κ}
+theorem sort_canonical_key_aux {α κ : Type} {cmp : α → α → Ordering} {key : α → κ}
     (h : TotalOnKey cmp key) {sort : List α → List α} (hs : IsSort (ltOf cmp) sort)
     {l₁ l₂ : List α} (hd : KeysDistinct key l₁) (p : l₁.Perm l₂) : sort l₁ = sort l₂ :=
-  sort_canonical hs (fun a b ha hb hne => h.comparable (hd a b ha hb hne)) p
+  sort_canonical_aux hs (fun a b ha hb hne => h.comparable (hd a b ha hb hne)) p
 
 /-! ### The reference sort `isort` is a sort, and it is stable -/
 
@@ -154,7 +154,7 @@ theorem isort_sorted {α : Type} {lt : α → α → Bool} (w : WeakOrder lt) :
   | [] => List.Pairwise.nil
   | x :: xs => insertBy_sorted w x _ (isort_sorted w xs)
 
-theorem isort_isSort {α : Type} {lt : α → α → Bool} (w : WeakOrder lt) : IsSort lt (isort lt) :=
+theorem isort_isSort_aux {α : Type} {lt : α → α → Bool} (w : WeakOrder lt) : IsSort lt (isort lt) :=
   ⟨isort_perm lt, isort_sorted w⟩
 
 theorem TotalOnKey.weakOrder {α κ : Type} {cmp : α → α → Ordering} {key : α → κ}
@@ -175,7 +175,7 @@ theorem TotalOnKey.weakOrder {α κ : Type} {cmp : α → α → Ordering} {key 
 
 /-- A tie between two different objects makes the result of a stable sort depend on the order in
     which the objects arrive. -/
-theorem tie_depends_on_input_order {α : Type} (lt : α → α → Bool) (a b : α)
+theorem tie_depends_on_input_order_aux {α : Type} (lt : α → α → Bool) (a b : α)
     (h₁ : lt a b = false) (h₂ : lt b a = false) :
     isort lt [a, b] = [a, b] ∧ isort lt [b, a] = [b, a] := by
   simp [isort, insertBy, h₁, h₂]
@@ -183,7 +183,7 @@ theorem tie_depends_on_input_order {α : Type} (lt : α → α → Bool) (a b : 
 /-- ... and with any sort routine at all, some pair of input orders must give results that are not
     both "the first input first": no routine can repair a tie canonically without reading more of
     the objects than the comparator does. Stated as: the result is a permutation of the two. -/
-theorem tie_result_is_one_of_two {α : Type} {lt : α → α → Bool} {sort : List α → List α}
+theorem tie_result_is_one_of_two_aux {α : Type} {lt : α → α → Bool} {sort : List α → List α}
     (hs : IsSort lt sort) (a b : α) : sort [a, b] = [a, b] ∨ sort [a, b] = [b, a] := by
   have p := hs.perm [a, b]
   have hl := p.length_eq
@@ -366,18 +366,18 @@ theorem cmpOfLess_nat {α : Type} (f : α → Nat) (a b : α) :
       simp [h1, h2, h3]
 
 /-- Canonical ordering for a `less`-style comparator whose three-way view is total on a key. -/
-theorem sort_canonical_less {α κ : Type} {less : α → α → Bool} {key : α → κ}
+theorem sort_canonical_less_aux {α κ : Type} {less : α → α → Bool} {key : α → κ}
     (h : TotalOnKey (cmpOfLess less) key) {sort : List α → List α} (hs : IsSort less sort)
     {l₁ l₂ : List α} (hd : KeysDistinct key l₁) (p : l₁.Perm l₂) : sort l₁ = sort l₂ := by
   have e := ltOf_cmpOfLess less
   have hs' : IsSort (ltOf (cmpOfLess less)) sort := by rw [e]; exact hs
-  exact sort_canonical_key h hs' hd p
+  exact sort_canonical_key_aux h hs' hd p
 
-theorem isort_isSort_less {α κ : Type} {less : α → α → Bool} {key : α → κ}
+theorem isort_isSort_less_aux {α κ : Type} {less : α → α → Bool} {key : α → κ}
     (h : TotalOnKey (cmpOfLess less) key) : IsSort less (isort less) := by
   have w := h.weakOrder
   rw [ltOf_cmpOfLess] at w
-  exact isort_isSort w
+  exact isort_isSort_aux w
 
 theorem keysDistinct_of_injective {α κ : Type} (key : α → κ) (inj : ∀ a b, key a = key b → a = b)
     (l : List α) : KeysDistinct key l :=
@@ -444,7 +444,7 @@ theorem foldBest_le {α : Type} {lt : α → α → Bool} (w : WeakOrder lt) :
         · exact foldBest_le w xs x y (List.mem_cons_of_mem _ hy'')
 
 /-- The selected element is a member that no member beats. -/
-theorem argBest_spec {α : Type} {lt : α → α → Bool} (w : WeakOrder lt) {l : List α} {m : α}
+theorem argBest_spec_aux {α : Type} {lt : α → α → Bool} (w : WeakOrder lt) {l : List α} {m : α}
     (h : argBest lt l = some m) : m ∈ l ∧ ∀ y ∈ l, lt y m = false := by
   match l, h with
   | x :: xs, h =>
@@ -454,7 +454,7 @@ theorem argBest_spec {α : Type} {lt : α → α → Bool} (w : WeakOrder lt) {l
 
 /-- **Order-independence of a best-element selection.** If distinct members are comparable, every
     enumeration of the same entries selects the same element. -/
-theorem argBest_perm {α : Type} {lt : α → α → Bool} (w : WeakOrder lt) {l₁ l₂ : List α}
+theorem argBest_perm_aux {α : Type} {lt : α → α → Bool} (w : WeakOrder lt) {l₁ l₂ : List α}
     (tot : ∀ a b, a ∈ l₁ → b ∈ l₁ → a ≠ b → lt a b = true ∨ lt b a = true)
     (p : l₁.Perm l₂) : argBest lt l₁ = argBest lt l₂ := by
   cases h₁ : argBest lt l₁ with
@@ -476,8 +476,8 @@ theorem argBest_perm {α : Type} {lt : α → α → Bool} (w : WeakOrder lt) {l
       subst this
       simp [argBest] at h₁
     | some m₂ =>
-      have s₁ := argBest_spec w h₁
-      have s₂ := argBest_spec w h₂
+      have s₁ := argBest_spec_aux w h₁
+      have s₂ := argBest_spec_aux w h₂
       have m₂in : m₂ ∈ l₁ := p.mem_iff.2 s₂.1
       have a := s₁.2 m₂ m₂in
       have b := s₂.2 m₁ (p.mem_iff.1 s₁.1)
